@@ -431,6 +431,72 @@ func cmdReplay(args []string) {
 	}
 }
 
-func thoroughExtras(eng *Engine, prop string, pr *propRun) []string { return nil }
+// thoroughExtras: the thorough tier additionally re-runs, against the real code of the current tree, the committed counterexamples
+// of every finding recorded for this property in KNOWN_FINDINGS (fixed findings must stay fixed: "reports the violation again if it
+// ever returns"). A failing replay is a violation with a failing input on the real code.
+func thoroughExtras(eng *Engine, prop string, pr *propRun) []string {
+	b, err := os.ReadFile(filepath.Join(verifRoot, "KNOWN_FINDINGS"))
+	if err != nil {
+		return nil
+	}
+	var files []string
+	re := regexp.MustCompile(`replay: (findings/[A-Za-z0-9_./-]+\.go)`)
+	for _, l := range strings.Split(string(b), "\n") {
+		l = strings.TrimSpace(l)
+		if !strings.HasPrefix(l, "fixed:") || !strings.Contains(l, "property="+prop+" ") {
+			continue
+		}
+		for _, m := range re.FindAllStringSubmatch(l, -1) {
+			files = append(files, m[1])
+		}
+	}
+	if len(files) == 0 {
+		return nil
+	}
+	// all finding files go into the package (they share helper types); only this property's tests are run
+	all, _ := filepath.Glob(filepath.Join(verifRoot, "findings", "*_test.go"))
+	ov := map[string]string{}
+	for i, f := range all {
+		ov[filepath.Join(eng.repo, fmt.Sprintf("zz_govc_finding_%d_test.go", i))] = f
+	}
+	dir := mkScratch()
+	defer os.RemoveAll(dir)
+	ovPath := filepath.Join(dir, "overlay.json")
+	writeJSON(ovPath, map[string]any{"Replace": ov})
+	var out []string
+	testRe := regexp.MustCompile(`(?m)^func (Test[A-Za-z0-9_]+)\(`)
+	for _, f := range files {
+		src, err := os.ReadFile(filepath.Join(verifRoot, f))
+		if err != nil {
+			continue
+		}
+		var names []string
+		for _, m := range testRe.FindAllStringSubmatch(string(src), -1) {
+			names = append(names, m[1])
+		}
+		if len(names) == 0 {
+			continue
+		}
+		cmd := exec.Command("go", "test", "-tags=verif", "-overlay", ovPath, "-vet=off", "-count=1", "-timeout", "300s", "-run", "^("+strings.Join(names, "|")+")$", ".")
+		cmd.Dir = eng.repo
+		o, err := cmd.CombinedOutput()
+		res := "pass"
+		if err != nil {
+			res = "FAIL"
+		}
+		fmt.Printf("thorough: replay of recorded finding %s on the real code: %s\n", f, res)
+		if err != nil {
+			rp := filepath.Join(verifRoot, "replays", prop, "finding_"+sanitize(filepath.Base(f))+".json")
+			txt := string(o)
+			if len(txt) > 20000 {
+				txt = txt[len(txt)-20000:]
+			}
+			writeJSON(rp, map[string]any{"property": prop, "obligation": "recorded finding " + f, "replay_test": filepath.Join(verifRoot, f),
+				"replay_result": txt, "confirmed_on_real_code": true})
+			out = append(out, fmt.Sprintf("VIOLATION property=%s replay=%s", prop, rp))
+		}
+	}
+	return out
+}
 
 func runSelftest(args []string) { fmt.Println("selftest: see tools/seeds_report.py and selftest/") }
